@@ -379,14 +379,14 @@ Proof.
   - change (256 ^ N.of_nat 8) with 18446744073709551616. lia.
   - change (256 ^ N.of_nat 8) with 18446744073709551616. lia.
 Qed.
-Lemma ukey_inj x k x' k' :
-  in_i64 k = true -> in_i64 k' = true -> ukey x k = ukey x' k' -> k = k' /\ smkey_u x = smkey_u x'.
+Lemma ukey_inj g x k x' k' :
+  in_i64 k = true -> in_i64 k' = true -> ukey g x k = ukey g x' k' -> k = k' /\ smkey_u g x = smkey_u g x'.
 Proof.
   unfold ukey. intros Hk Hk' H. apply app_inj_len in H as [H1 H2].
   - split; auto. apply enc_int_inj; auto.
   - rewrite !enc_int_len; auto.
 Qed.
-Lemma ukey_prefix x k : has_prefix (smkey_u x) (ukey x k) = true.
+Lemma ukey_prefix g x k : has_prefix (smkey_u g x) (ukey g x k) = true.
 Proof. unfold ukey. apply has_prefix_app. Qed.
 
 Lemma conv_v_same nv v' : conv_v nv = Ok v' -> v' = nv.
